@@ -17,6 +17,7 @@ import Frp.Engines.Codec
 import Frp.Engines.Visitor
 import Frp.Engines.Wire
 import Frp.Engines.Group
+import Frp.Engines.GroupPorts
 import Frp.Engines.Http
 import Frp.Engines.Peer
 import Frp.Engines.RegRace
@@ -58,6 +59,7 @@ def all : List (String × Engine) :=
   , ("visitor", visitor)
   , ("wire", wire)
   , ("group", group)
+  , ("grpports", grpports)
   , ("http", http)
   , ("peer", peer)
   , ("regrace", regrace)
